@@ -796,8 +796,8 @@ impl Property for C10 {
     }
     fn runs(&self, tier: Tier) -> u64 {
         match tier {
-            Tier::Quick => 200_000,
-            Tier::Thorough => 6_000_000,
+            Tier::Quick => 3_000_000,
+            Tier::Thorough => 60_000_000,
         }
     }
     fn probe_names(&self) -> &'static [&'static str] {
